@@ -91,7 +91,10 @@ def corpus():
     # and keeps its foreign key, so the re-created child still belongs to its parent
     prog = [['add', 0, 2, {'a': 1}], ['add', 1, 2, {'a': 0}], ['tagto', 2, 2], ['commit'],
             ['del', 1, 2], ['add', 1, 2, {'a': 1}], ['commit'], ['set', 0, 2, {'a': 2}], ['commit']]
-    return [dict(kind='H', strategy=st, prog=prog) for st in ('subquery', 'validity')]
+    # a child added below its parent, flushed, and deleted again in the same transaction (another one stays)
+    prog2 = [['add', 0, 1, {'a': 1}], ['commit'], ['set', 0, 1, {'a': 2}], ['add', 1, 1, {'a': 0}], ['tagto', 1, 1],
+             ['add', 1, 2, {'a': 0}], ['tagto', 2, 1], ['flush'], ['del', 1, 1], ['commit'], ['set', 0, 1, {'a': 3}], ['commit']]
+    return [dict(kind='H', strategy=st, prog=p_) for st in ('subquery', 'validity') for p_ in (prog, prog2)]
 
 
 def gen_tag_program(rng):
@@ -123,6 +126,10 @@ def gen_tag_program(rng):
             if t not in tags:
                 prog.append(['add', 1, t, {'a': 1}])
                 tags.add(t)
+                if arts and rng.random() < 0.4:
+                    # a child created below a parent, flushed, and deleted again within the same transaction
+                    prog += [['tagto', t, rng.choice(sorted(arts))], ['flush'], ['del', 1, t]]
+                    tags.discard(t)
         elif r < 0.84:
             a = rng.choice([1, 2])
             if a not in arts:
